@@ -1,7 +1,7 @@
 (** C12 — Documented value ranges and ordering invariants hold on every valid stream (exact arithmetic). *)
 From Yata Require Import Base.Prelude Base.Num Base.NumR Core.Window Core.Candle Core.Action Core.Strings
   Spec.Hist Spec.MethodDefs Spec.IndicatorDefs Methods.Basic Methods.Select Indicators.Common Indicators.Set1 Indicators.Set2 Indicators.Set3 Proofs.Ranges Proofs.Averages
-  Proofs.IndicatorProofs2 Proofs.IndicatorProofs3 Proofs.IndicatorProofs6.
+  Proofs.IndicatorProofs2 Proofs.IndicatorProofs3 Proofs.IndicatorProofs6 Indicators.Set5 Proofs.IndicatorProofs15 Proofs.TsxRange.
 From Coq Require Import Reals.
 Open Scope R_scope.
 
@@ -98,6 +98,19 @@ Proof.
   intros Hn Hi. destruct (donchian_values_correct n c0 cs c Hn) as (s0 & E & H). exists s0. split; [exact E|].
   rewrite H. apply donchian_contains. exact Hi.
 Qed.
+(** TrendStrengthIndex: the value is the correlation coefficient of the window with a ramp, so it lies in [-1, 1]
+    (Cauchy-Schwarz; in exact arithmetic a flat window gives 0 / sqrt 0, read as 0 - the binary64 code returns NaN there,
+    where the formula is undefined) *)
+Theorem C12_tsx_range period (h : nat -> R) : (1 <= period)%Z -> -1 <= tsx_def period h <= 1.
+Proof. exact (tsx_range period h). Qed.
+Theorem C12_trend_strength_model_range period (zone : R) offset src (c0 : C) cs c :
+  (1 < period < pmax)%Z -> 0 <= zone < 1 -> (0 < offset < period)%Z -> (4 < pmax)%Z ->
+  exists s0, tsx_init period zone offset src c0 = Ok s0 /\
+    Forall (fun v => -1 <= v <= 1) (fst (snd (tsx_next (steps tsx_next s0 cs) c))).
+Proof.
+  intros Hp Hz Ho Hm. destruct (trend_strength_values_correct period zone offset src c0 cs c Hp Hz Ho Hm) as (s0 & E & H).
+  exists s0. split; [exact E|]. rewrite H. constructor; [|constructor]. apply tsx_range. lia.
+Qed.
 End C12.
 
 (** Known findings KF-C12-{cmo,mfi,rsi}-residue: on the faithful binary64 model (kernel computation) the running sums of
@@ -124,4 +137,18 @@ Proof. do 3 eexists. split; vm_compute; reflexivity. Qed.
 Theorem C12_rsi_residue_refuted :
   exists v, last_vals (rsi_init (pw := PW8) (mkRsiCfg (MAcfg KWMA 3) 0.3%float SClose) (flatc 100 1)) (rsi_next (pw := PW8))
               [flatc 0.001 1; flatc 7 1; flatc 7 1; flatc 7 1; flatc 7 1] = [v] /\ PrimFloat.ltb v 0 = true.
+Proof. eexists. split; vm_compute; reflexivity. Qed.
+(** KF-C12-cmf-residue: three bars closing on their low (CLV = -1 exactly), volumes 1e8, 0.3, 0.1: the running volume sum of
+    ChaikinMoneyFlow(2) keeps the residue of the volume that has left the window and the quotient falls below -1. *)
+Definition lowc (v : float) : candle (N := NumF64) := mkCandle (N := NumF64) 2%float 2%float 1%float 1%float v.
+Theorem C12_cmf_residue_refuted :
+  exists v, last_vals (cmf_init (pw := PW8) 2 (lowc 100000000)) (cmf_next (pw := PW8)) [lowc 0.3; lowc 0.1] = [v] /\
+            PrimFloat.ltb v (-1)%float = true.
+Proof. eexists. split; vm_compute; reflexivity. Qed.
+(** KF-C12-vidya-nan: RelativeStrengthIndex averaged by Vidya(3): closes 100 | 3.3, 2.5, 0.1 and then flat.  Vidya's running
+    sums are left with opposite residues, their sum is 0, the ratio infinite, and the value is NaN from then on. *)
+Theorem C12_rsi_vidya_nan_refuted :
+  exists v, last_vals (rsi_init (pw := PW8) (mkRsiCfg (MAcfg KVidya 3) 0.3%float SClose) (flatc 100 1)) (rsi_next (pw := PW8))
+              [flatc 3.3 1; flatc 2.5 1; flatc 0.1 1; flatc 0.1 1; flatc 0.1 1; flatc 0.1 1; flatc 0.1 1; flatc 0.1 1; flatc 0.1 1] = [v] /\
+            PrimFloat.is_nan v = true.
 Proof. eexists. split; vm_compute; reflexivity. Qed.
